@@ -264,6 +264,10 @@ PINS = {
     'C19': ['PersistSites'],
     'C20': ['StatsSites', 'AdderSites'],
 }
+# Impl.Table refines Spec (per-key decision code of cache_impl.go): charged to the properties it speaks about
+for _pid in ('C01', 'C03', 'C06', 'C12'):
+    if 'OtterVerif.Props.C01Refine' not in PROPS[_pid]['modules']:
+        PROPS[_pid]['modules'].append('OtterVerif.Props.C01Refine')
 for _pid, _mods in PINS.items():
     for _m in _mods:
         _name = 'OtterVerif.Pin.' + _m
